@@ -174,7 +174,7 @@ func init() {
 		Assumptions: []string{"behavioural equality is judged on the sampled inputs only"},
 		Batches:     func(t string) int { return pick(t, 4, 16) },
 		Floor:       func(t string) int { return pick(t, 300, 5000) },
-		TimeoutSec:  func(t string) int { return pick(t, 600, 3000) },
+		TimeoutSec:  func(t string) int { return pick(t, 120, 3000) },
 		Child:       c16Child,
 	})
 }
